@@ -1,7 +1,7 @@
 SPECIFICATION GSpec
 CONSTANTS
   Params = {"p1", "p2"}
-  Mod2 = {}
+  Mod2 = {"p2"}
   Vals = {"a", "b"}
   Errs = {"e1", "e2"}
   Invs = {"i1"}
@@ -10,8 +10,9 @@ CONSTANTS
   InitStamps = {0, 1}
   NoDefault = {"p1"}
   InitScopeSets = {{}, {"all"}}
-  HiddenChoices = {{}}
-  ActScopes = {"all", "p1"}
+  HiddenChoices = {{}, {"p2"}}
+  ActScopes = {"all", "mod", "p1"}
+  RepKinds = {}
   MaxNow = 8
   Depth = 3
   FullParams = {"p1"}
@@ -19,6 +20,7 @@ CONSTANTS
   GenConns = {"c2"}
   GenDefaults = {"a"}
   GenLiteOmit = {0}
+  GenExtra = {"At", "Nest", "Deact", "Untouched"}
 CONSTRAINT Bound
 INVARIANT EmitMax
 CHECK_DEADLOCK FALSE
